@@ -58,11 +58,28 @@ section solver
 variable [Add S] [Sub S] [Mul S] [Div S] [Neg S] [OfNat S 0] [OfNat S 1] [NatCast S] [LT S]
   [DecidableRel (α := S) (· < ·)] [BEq S]
 
+/-- `f64::is_finite`, spelled with the operations every scalar type has: `x - x == 0` holds for every finite value
+(and for every element of a field) and fails exactly for `±∞` (`∞ − ∞ = NaN`) and `NaN` -/
+def finiteS (x : S) : Bool := (x - x) == 0
+
+/-- the midpoint as the code computes it: `(lower + upper) / 2`, and `lower / 2 + upper / 2` only when the sum
+overflows (halving first rounds in the subnormal range and can leave the bracket: D38) -/
+def midpoint (l u : S) : S :=
+  if finiteS (l + u) then (l + u) / ((2 : Nat) : S) else l / ((2 : Nat) : S) + u / ((2 : Nat) : S)
+
+/-- `f64::signum` on a value that is not `±0` (the caller tests that first): `−1`, `1`, and the value itself when it
+is neither negative nor positive (a NaN stays a NaN) -/
+def signumS (x : S) : S := if x < 0 then -1 else if 0 < x then 1 else x
+
+/-- the sign test `if f_lower == 0.0 { 0.0 } else { f_lower.signum() * f_curr }`: it has the sign of the product
+`f_lower * f_curr` and cannot underflow to zero (D39) -/
+def signTest (fl fm : S) : S := if fl == 0 then 0 else signumS fl * fm
+
 /-- one pass of the loop body, up to (not including) the `break` test.
 `first` is `iter == 0`; `ev` is `polynomial.eval_univariate`. -/
 def bisectPass (ev : S → Except PErr S) (first : Bool) (st : BState S) : Except PErr (BState S) :=
   let old := st.x
-  let x : S := st.lower / ((2 : Nat) : S) + st.upper / ((2 : Nat) : S)
+  let x : S := midpoint st.lower st.upper
   -- `if iter > 0 && x_curr != 0.0 { approx_err = ((x_curr - old).abs() / x_curr) * 100.0 }`
   let aerr : S := if !first && !(x == 0) then (sabs (x - old) / x) * ((100 : Nat) : S) else st.aerr
   match ev st.lower with
@@ -71,7 +88,7 @@ def bisectPass (ev : S → Except PErr S) (first : Bool) (st : BState S) : Excep
     match ev x with
     | .error e => .error e
     | .ok fm =>
-      let test := fl * fm
+      let test := signTest fl fm
       if test < 0 then .ok ⟨st.lower, x, x, aerr⟩
       else if 0 < test then .ok ⟨x, st.upper, x, aerr⟩
       else .ok ⟨st.lower, st.upper, if fl == 0 then st.lower else x, 0⟩
